@@ -229,6 +229,10 @@ class PyBase:
                 out.append({"st": "exc", "exc": r.get("exc"), "msg": r.get("msg"), "env_numpy2": r.get("env_numpy2", False), "tb": r.get("tb")})
         return out, [], None
 
+    def consts(self):
+        rs = self.child.call_many([{"op": "consts", "type": key(t)} for t in self.msgs])
+        return {i: r for i, r in enumerate(rs)}
+
     def close(self):
         if getattr(self, "child", None):
             self.child.close()
